@@ -6,7 +6,9 @@ import RocflModel.Basic.AList
 namespace Rocfl
 
 abbrev LPath := Str
-abbrev CPath := Str
+/-- a content path `v<N>/<rest>`: the version directory it lives in (`ContentPath::version`) and the
+    part below it (`<contentDirectory>/<logical path>` for paths rocfl creates) -/
+abbrev CPath := Nat × Str
 abbrev Digest := Str
 
 inductive Err
@@ -174,15 +176,14 @@ def setHeadVersion (inv : Inv) (v : Version) : Inv :=
 
 /-- `new_content_path` (inventory.rs:471-473; types.rs:750-763) -/
 def newContentPath (inv : Inv) (p : LPath) : CPath :=
-  inv.head.display ++ '/' :: (inv.contentDir ++ '/' :: p)
+  (inv.head.number, inv.contentDir ++ '/' :: p)
 
-def headPrefix (inv : Inv) : Str := inv.head.display ++ ['/']
+/-- `content_path.starts_with("<head>/")`: the content path lives in the head version directory -/
+def inHead (inv : Inv) (cp : CPath) : Bool := cp.1 == inv.head.number
 
-/-- the version number a content path starts with (`ContentPath::try_from`, types.rs:800-823) -/
-def cpathVersion (cp : CPath) : Option Nat :=
-  match (splitOnSlash cp).head? with
-  | some ('v' :: ds) => (String.ofList ds).toNat?
-  | _ => none
+/-- the serialised form `v<N>/<rest>` (all versions of an object share the head's padding width) -/
+def showCPath (inv : Inv) (cp : CPath) : Str :=
+  ({ inv.head with number := cp.1 } : VNum).display ++ '/' :: cp.2
 
 def isNew (inv : Inv) : Bool := inv.head.number == 1
 
@@ -201,17 +202,14 @@ def pathsFor (inv : Inv) (d : Digest) : List CPath :=
     several content paths qualify and none has the preferred suffix, Rust returns the first in
     HashSet order — the model returns them all and callers / the correspondence quantify over them. -/
 def contentPathsForDigest (inv : Inv) (d : Digest) (upTo : Nat) (lp : Option LPath) : Except Err (List CPath) :=
-  let ms := (inv.pathsFor d).filter (fun cp =>
-    match cpathVersion cp with
-    | some n => n ≤ upTo
-    | none => false)
+  let ms := (inv.pathsFor d).filter (fun cp => cp.1 ≤ upTo)
   if ms.isEmpty then .error .corrupt
   else
     match lp with
     | some p =>
       if ms.length > 1 then
         let suffix := '/' :: (inv.contentDir ++ '/' :: p)
-        match ms.filter (fun cp => suffix.isSuffixOf cp) with
+        match ms.filter (fun cp => suffix.isSuffixOf ('/' :: cp.2)) with
         | [] => .ok ms
         | pref => .ok pref
       else .ok ms
@@ -276,7 +274,7 @@ def removeLogicalPathFromHead (inv : Inv) (p : LPath) : Inv × Option CPath :=
 
 /-- content paths of `d` that were added in the head version -/
 def headPathsFor (inv : Inv) (d : Digest) : List CPath :=
-  (inv.pathsFor d).filter (fun cp => inv.headPrefix.isPrefixOf cp)
+  (inv.pathsFor d).filter (fun cp => inv.inHead cp)
 
 /-- Is `keep` an admissible outcome of `dedup_head` for digest `d` (inventory.rs:320-361)?
     If every copy of the digest is new in the head, exactly one (any one) survives; if an earlier
@@ -291,13 +289,17 @@ def dedupAdmissible (inv : Inv) (d : Digest) (keep : List CPath) : Bool :=
     | _ => false
   else keep.isEmpty
 
+/-- every digest's surviving paths are an admissible outcome of `dedup_head` -/
+def keepAdmissible (inv : Inv) (keep : Digest → List CPath) : Bool :=
+  (inv.manifest.map (·.2)).all (fun d => inv.dedupAdmissible d (keep d))
+
 /-- `dedup_head` with the surviving new paths chosen by `keep : Digest → List CPath`
     (the HashSet iteration order of the implementation).  Returns the new inventory and the removed
     content paths. -/
 def dedupHead (inv : Inv) (keep : Digest → List CPath) : Inv × List CPath :=
   let removed := inv.manifest.filter (fun e =>
     let all := inv.pathsFor e.2
-    all.length > 1 && inv.headPrefix.isPrefixOf e.1 && !(keep e.2).contains e.1)
+    all.length > 1 && inv.inHead e.1 && !(keep e.2).contains e.1)
   ({ inv with manifest := inv.manifest.filter (fun e => !removed.contains e) }, removed.map (·.1))
 
 /-- the deterministic choice the driver uses when the implementation's choice is not observable -/
